@@ -232,7 +232,7 @@ impl Array4 {
             let mut new_aux = None;
 
             for (slot, old_actual_val) in old_aux.into_iter() {
-                debug_assert_ne!(
+                debug_assert_eq!(
                     self.get_raw(slot),
                     AUX_TOKEN,
                     "AuxMap contains slow without AUX_TOKEN"
